@@ -852,3 +852,59 @@ func zzC04eDownstreamLife() {
 	conn.Close(ctx)
 	vf.Reach("end")
 }
+
+// C03.e: pre-registered data-id aliases (WithDownstreamDataIDs) stay what the client announced in its
+// open request, also when the list repeats an id and after further ids have been assigned aliases.
+func zzC03ePreregistered() {
+	b := zzNewBroker()
+	zzServeStreams(b)
+	conn := zzConnect(b)
+	tr := b.last()
+	ctx := context.Background()
+	pool := []*message.DataID{{Name: "x", Type: "t"}, {Name: "y", Type: "t"}}
+	var pre []*message.DataID
+	n := 1 + vf.Choose("preregistered.n", 3)
+	for i := 0; i < n; i++ {
+		pre = append(pre, pool[vf.Choose("pre"+string(rune('0'+i)), 2)]) // may repeat an id
+	}
+	down, err := conn.OpenDownstream(ctx, []*message.DownstreamFilter{{SourceNodeID: "node"}}, WithDownstreamDataIDs(pre))
+	vf.Assume(err == nil)
+	vf.Settle()
+	var open *message.DownstreamOpenRequest
+	for _, m := range tr.msgs() {
+		if r, ok := m.(*message.DownstreamOpenRequest); ok {
+			open = r
+		}
+	}
+	vf.Assume(open != nil)
+	announced := open.DataIDAliases
+	for a := range announced {
+		vf.Assert("announced-aliases-nonzero", a != 0)
+	}
+	up := &message.UpstreamInfo{SessionID: "s", SourceNodeID: "node", StreamID: zzStreamID1}
+	// first a chunk with a new id in full form (gets a fresh alias) ...
+	z := &message.DataID{Name: "z", Type: "t"}
+	tr.push(&message.DownstreamChunk{StreamIDAlias: open.DesiredStreamIDAlias, UpstreamOrAlias: up, StreamChunk: &message.StreamChunk{SequenceNumber: 1,
+		DataPointGroups: []*message.DataPointGroup{{DataIDOrAlias: z, DataPoints: []*message.DataPoint{{ElapsedTime: 1}}}}}})
+	vf.Settle()
+	c1, e1 := down.ReadDataPoints(ctx)
+	vf.Assert("new-id-chunk-read", e1 == nil && c1 != nil && *c1.DataPointGroups[0].DataID == *z)
+	st := down.State()
+	for a, id := range st.DataIDAliases {
+		if want, ok := announced[a]; ok {
+			vf.Assert("announced-alias-keeps-its-id", *id == *want)
+		}
+	}
+	// ... then one chunk per announced alias: each resolves to exactly the id announced for it
+	seq := uint32(2)
+	for a, want := range announced {
+		tr.push(&message.DownstreamChunk{StreamIDAlias: open.DesiredStreamIDAlias, UpstreamOrAlias: up, StreamChunk: &message.StreamChunk{SequenceNumber: seq,
+			DataPointGroups: []*message.DataPointGroup{{DataIDOrAlias: message.DataIDAlias(a), DataPoints: []*message.DataPoint{{ElapsedTime: 2}}}}}})
+		vf.Settle()
+		c, e := down.ReadDataPoints(ctx)
+		vf.Assert("preregistered-alias-resolves-to-the-announced-id", e == nil && c != nil && len(c.DataPointGroups) == 1 && *c.DataPointGroups[0].DataID == *want)
+		seq++
+	}
+	conn.Close(ctx)
+	vf.Reach("end")
+}
